@@ -915,6 +915,10 @@ func oracleC19(r *Rng, n int, thorough bool, seeds []string) *OracleResult {
 			l := rfc1035label.NewLabels()
 			l.Labels = append([]string{}, ns...)
 			b := l.ToBytes()
+			// another set encoded in between does not disturb the bytes already returned
+			o := rfc1035label.NewLabels()
+			o.Labels = []string{"other.example", "x"}
+			o.ToBytes()
 			if want := refEncode(ns); !bytes.Equal(b, want) {
 				return fmt.Sprintf("encodes to %s, RFC wire form is %s", hx(b), hx(want)), "label-encode"
 			}
@@ -986,11 +990,23 @@ func oracleC19(r *Rng, n int, thorough bool, seeds []string) *OracleResult {
 				parsed = append([]string{}, l.Labels...)
 			}
 			seen[hashStr(line)] = struct{}{}
+			// every result of ToBytes is the caller's: it is still what it was when the
+			// history is over (an encoder handing out a pooled buffer would fail this)
+			var held, heldCopy [][]byte
+			defer func() {
+				_ = heldCopy
+			}()
 			for k, op := range args[1:] {
 				f := strings.Split(op, ":")
 				switch f[0] {
 				case "t":
 					out := l.ToBytes()
+					held, heldCopy = append(held, out), append(heldCopy, append([]byte{}, out...))
+					for i := range held[:len(held)-1] {
+						if !bytes.Equal(held[i], heldCopy[i]) {
+							return fmt.Sprintf("step %d: the bytes an EARLIER ToBytes returned changed to %s", k, hx(held[i])), "label-history"
+						}
+					}
 					cur := append([]string{}, l.Labels...)
 					var want []byte
 					if args0 != "new" && sameNames(parsed, cur) {
